@@ -5,6 +5,7 @@ Observation checker: from a blocking request's first write to its end no frame o
 request is written; blocking requests start transmitting in issue order; a non-blocking request
 issued while a blocking request only waits for its response is transmitted at once.
 """
+import priv
 import hostdrive
 from props.c11 import run_generic, replay  # noqa: F401
 
@@ -36,11 +37,11 @@ def across_reset(ctx):
                     mk, _, _ = K["G"]
                     w.start(1, mk(1), 12.0); order.append(1)
                     if acked:
-                        w.rx(streams.ack(w.p._pack_seq))
+                        w.rx(streams.ack(priv.pack_seq(w.p)))
                     if queued:
                         w.start(2, K["P"][0](2), 14.0); order.append(2)
                     w.start_reset(real_connect=True, fail_first=fails)
-                    w.rx(streams.ack(w.p._pack_seq))
+                    w.rx(streams.ack(priv.pack_seq(w.p)))
                     w.lost()
                     for _ in range(40):
                         if "RECONNECTED" in w.log or not w.tick():
